@@ -434,12 +434,10 @@ func (d *lockDrv) apply(s core.Step) (any, any, error) {
 		ret = cs.result
 		delete(d.calls, c)
 	case "Timer":
-		// the unlock timer fires: visible as the flag going back to locked
-		deadline := time.Now().Add(d.tmo() + 60*time.Second)
-		for !d.rig.n.w.IsWalletLocked() {
-			if time.Now().After(deadline) {
-				return nil, nil, fmt.Errorf("unlock timer did not fire")
-			}
+		// the unlock timer fires: visible as the flag going back to locked. A wallet still
+		// unlocked long after its timeout (10x + 20 s) is reported as such, not as a tooling error.
+		deadline := time.Now().Add(10*d.tmo() + 20*time.Second)
+		for !d.rig.n.w.IsWalletLocked() && time.Now().Before(deadline) {
 			time.Sleep(5 * time.Millisecond)
 		}
 		d.armedAt = time.Time{}
